@@ -363,6 +363,71 @@ class Program:
                     out.append((b['d'], b['n']))
         return out
 
+    CMP_OPS = {'<': '>', '>': '<', '<=': '>=', '>=': '<=', '==': '==', '!=': '!='}
+
+    @staticmethod
+    def comparisons(fn):
+        """[(node id, lhs kid position, rhs kid position, op)] of the comparison expressions of fn."""
+        out = []
+        for i in fn.walk():
+            nd = fn.nodes[i]
+            if nd.get('op') not in Program.CMP_OPS:
+                continue
+            ks = fn.kids(i)
+            if nd['k'] == 'BinaryOperator' and len(ks) == 2:
+                out.append((i, 0, 1, nd['op']))
+            elif nd['k'] == 'CXXOperatorCallExpr' and len(ks) == 3:
+                out.append((i, 1, 2, nd['op']))
+        return out
+
+    @staticmethod
+    def comparison_table(fn):
+        from .canon import canon
+        return [[repr(canon(fn, fn.kids(i)[a])), op, repr(canon(fn, fn.kids(i)[b]))] for i, a, b, op in Program.comparisons(fn)]
+
+    def _pin_comparisons(self, f, ent):
+        """A comparison that the pinned tree spells the other way round (`a < b` there, `b > a` here — same operands, mirrored
+        operator) is turned back into the pinned orientation, so that rules written against `a < b` are not disturbed by a
+        behaviour-preserving flip.  Comparisons the pinned tree does not have are left as written."""
+        table = {(a, op, b) for a, op, b in ent.get('cmps', [])}
+        if not table:
+            return
+        from .canon import canon
+        for i, ia, ib, op in Program.comparisons(f):
+            ks = f.kids(i)
+            a, b = repr(canon(f, ks[ia])), repr(canon(f, ks[ib]))
+            mop = Program.CMP_OPS[op]
+            if (a, op, b) in table or (b, mop, a) not in table or a == b:
+                continue
+            nd = f.nodes[i]
+            c = nd['c']
+            pa, pb = c.index(ks[ia]), c.index(ks[ib])
+            c[pa], c[pb] = c[pb], c[pa]
+            nd['op'] = mop
+            if nd.get('callee') and ('operator' + op) in nd['callee']:
+                nd['callee'] = nd['callee'].replace('operator' + op, 'operator' + mop)
+            nd['mirrored'] = True
+        # C++20 rewritten comparisons: `a < b` on types with operator<=> is `(a <=> b) < 0`; its mirror is `(b <=> a) > 0`
+        for i, ia, ib, op in Program.comparisons(f):
+            ks = f.kids(i)
+            inner = f.strip(ks[ia])
+            ind = f.nodes[inner]
+            if not (ind['k'] == 'CXXOperatorCallExpr' and ind.get('op') == '<=>' and len(f.kids(inner)) == 3):
+                continue
+            zero = repr(canon(f, ks[ib]))
+            ik = f.kids(inner)
+            a, b = canon(f, ik[1]), canon(f, ik[2])
+            mop = Program.CMP_OPS[op]
+            here = (repr(('op<=>', a, b)), op, zero)
+            there = (repr(('op<=>', b, a)), mop, zero)
+            if here in table or there not in table or a == b:
+                continue
+            c = ind['c']
+            pa, pb = c.index(ik[1]), c.index(ik[2])
+            c[pa], c[pb] = c[pb], c[pa]
+            f.nodes[i]['op'] = mop
+            f.nodes[i]['mirrored'] = True
+
     def _pin_names(self):
         if Program._PIN_TABLE is None:
             path = os.path.join(build.VERIF, 'props', 'pinned_names.json')
@@ -381,6 +446,7 @@ class Program:
             ent = table.get(Program.pin_key(newq, f))
             r = ren.setdefault(f.unit, {})
             if ent is not None and not ent.get('ambiguous'):
+                f._pin_ent = ent
                 f._known_locals = set(ent['locals']) | set(ent['params'])
                 if len(ent['params']) == len(f.params):
                     for p_, want in zip(f.params, ent['params']):
@@ -443,6 +509,10 @@ class Program:
             for f in self.fns:
                 self.by_q.setdefault(f.q, []).append(f)
         self.pinned_renames = sum(len(v) for v in ren.values()) if changed or qmap else 0
+        for f in self.fns:
+            ent = getattr(f, '_pin_ent', None)
+            if ent is not None:
+                self._pin_comparisons(f, ent)
 
     def fn(self, q, nparams=None, unit=None, optional=False):
         """The unique function with this qualified name (AnalysisBroken if the anchor vanished)."""
